@@ -185,6 +185,13 @@ func runWorldB(rc *RunCtx, prop string) *RunResult {
 	maxSteps := 150 + T.Draw(900, "cfg.steps")
 	w.useUnpub = T.Draw(3, "cfg.unpub") == 0
 
+	if T.Draw(6, "cfg.wide") == 0 { // many DIDs, large batches: transactions with many operations
+		nDIDs = 5 + T.Draw(6, "cfg.dids.wide")
+		maxOps = uint(4 + T.Draw(9, "cfg.maxOps.wide"))
+		opsPerDID = 1 + T.Draw(3, "cfg.opsPerDid.wide")
+		nClients = 2 + T.Draw(3, "cfg.clients.wide")
+	}
+
 	pick := func(name string, vals ...int) { w.rates[name] = vals[T.Draw(len(vals), "cfg.rate."+name)] }
 
 	switch prop {
@@ -200,6 +207,7 @@ func runWorldB(rc *RunCtx, prop string) *RunResult {
 		pick("cas.rerr", 0, 100, 250)
 		pick("queue.adderr", 0, 150)
 		pick("unpub.err", 0, 150)
+		pick("unpub.delerr", 0, 0, 150)
 		pick("byz.txn", 0, 150, 300)
 		pick("obs.crash", 0, 0, 1)
 		pick("deliver.reorder", 0, 150)
@@ -281,6 +289,11 @@ func runWorldB(rc *RunCtx, prop string) *RunResult {
 	w.unpub = simenv.NewUnpub(k, "unpub")
 	w.unpub.Fault = func(op string) error {
 		if op == "Put" && w.fault("unpub.err") {
+			return errors.New("injected unpublished-store failure")
+		}
+
+		// (the transaction's operations are stored by then; the unpublished copies linger)
+		if op == "DeleteAll" && w.fault("unpub.delerr") {
 			return errors.New("injected unpublished-store failure")
 		}
 
